@@ -104,7 +104,7 @@ Definition apply_op (ins : list darr) (o : op) (a : darr) : res value :=
   | OInterp k news r l rr => arr1 (interp_axis k news r l rr) a
   | OInterpLike others l rr => arr1 (interp_like others l rr) a
   | OFlatten rs st ins => arr1 (flatten rs st ins) a
-  | OUnflatten => Ok (VArr (unflatten a))
+  | OUnflatten => arr1 unflatten a
   | OReshape nd => arr1 (reshape nd) a
   | ORenameAxis r n =>
       let! i := axis_info a r in
